@@ -183,7 +183,14 @@ fn mutate(item: &Item, counter: &mut usize, target: usize, kind: &str, rng: &mut
                 if let Item::Array(parts) = &**x {
                     if parts.len() == 4 {
                         let mut v = parts.clone();
-                        v[3] = match rng.below(4) {
+                        v[3] = match rng.below(6) {
+                            // a correct tagged digest followed by extra bytes
+                            4 | 5 => {
+                                let mut a = encode(&Item::Tag(40001, Box::new(Item::Bytes(rng.bytes(32)))));
+                                let extra = 1 + rng.below(5);
+                                a.extend_from_slice(&rng.bytes(extra));
+                                Item::Bytes(a)
+                            }
                             0 => Item::Bytes(rng.bytes(32)),
                             1 => Item::Bytes(encode(&Item::Bytes(rng.bytes(32)))),
                             2 => Item::Bytes(encode(&Item::Tag(40001, Box::new(Item::Bytes(rng.bytes(31)))))),
@@ -449,6 +456,31 @@ pub fn run(ctx: &mut Ctx) {
                             b.extend_from_slice(&[0xd8, 0xc9]);
                             b.extend_from_slice(&form);
                             judge(ctx, &b, "quirk:float-spelled-integer");
+                        }
+                    }
+                }
+            }
+        }
+        if case % 1999 == 3 {
+            // two threads decode at the same time: one a node whose assertions are out of order, the other the
+            // valid node - every verdict is the single-threaded one
+            if let Item::Tag(200, inner) = &item {
+                if let Item::Array(xs) = &**inner {
+                    if xs.len() >= 3 {
+                        let mut sw = xs.clone();
+                        sw.swap(1, 2);
+                        let bad = encode(&Item::Tag(200, Box::new(Item::Array(sw))));
+                        let good = valid.clone();
+                        if Envelope::try_from_cbor_data(bad.clone()).is_err() && Envelope::try_from_cbor_data(good.clone()).is_ok() {
+                            ctx.eval();
+                            ctx.count("two_thread_decode_stress");
+                            let (b2, g2) = (bad.clone(), good.clone());
+                            let t1 = std::thread::spawn(move || (0..30_000).filter(|_| Envelope::try_from_cbor_data(b2.clone()).is_ok()).count());
+                            let t2 = std::thread::spawn(move || (0..30_000).filter(|_| Envelope::try_from_cbor_data(g2.clone()).is_err()).count());
+                            let (a, r) = (t1.join().unwrap_or(usize::MAX), t2.join().unwrap_or(usize::MAX));
+                            if a != 0 || r != 0 {
+                                ctx.violation("concurrent-decode/verdict-depends-on-other-thread", &format!("with another thread decoding at the same time a misordered node was accepted {} times and a valid node rejected {} times (of 30000 each)", a, r), J::obj(vec![("misordered_hex", J::s(hex::encode(&bad))), ("valid_hex", J::s(hex::encode(&good)))]));
+                            }
                         }
                     }
                 }
